@@ -24,7 +24,7 @@ TITLE = 'escaping of inserted values'
 LEVEL = 'exploration'
 SHARDS = {'quick': 16, 'thorough': 16}
 FLOOR = {'quick': 800, 'thorough': 3000}
-REQUIRED_MONITORS = {'sites-checked': 1200, 'opt-outs-checked': 150}
+REQUIRED_MONITORS = {'sites-checked': 1200, 'sites-checked-default-translation': 400, 'opt-outs-checked': 150}
 RULE = ('a case = (site kind, wrapper, hostile value, neighbours); 27 site kinds {element text, "attr", \'attr\', two '
         'interpolations in one attribute, tal:attributes onto new / "static" / \'static\' attribute, dictionary attribute value, '
         'comment, tal:content, tal:replace, string: in content, string: in attribute, ${} inside i18n:translate, i18n:name '
@@ -77,7 +77,7 @@ HOSTILE = [
     ('nul', 'a\x00b<'), ('nonascii', 'é<日>'), ('newline', 'a\n<b'), ('bytes', b'by<&>"\''), ('strsub', StrSub('s<u"b\'')),
     ('int', 7), ('float', 2.5), ('bool', True), ('obj', exprs.Obj('O<&>"\'')), ('message', Message('m<&>"\'')),
     ('dollar', '${x} $$'), ('percent', '%s %(a)s'), ('backslash', '\\<'), ('empty', ''), ('spaces', '  <  '),
-    ('long', '<' * 40 + '&' * 40),
+    ('long', '<' * 40 + '&' * 40), ('dollars', 'only $$5 & "$$HOME" $'), ('placeholder', '${other} $other <$$>'),
     ('float-subclass', Money(2.5)), ('int-subclass', Level(3)), ('int-subclass-2', FlagTrue(1)),
 ]
 
@@ -131,6 +131,8 @@ SITES = {
     'i18n-name': ('<p i18n:translate="">' + A + '<b i18n:name="n" tal:omit-tag="">${v}</b>' + B + '</p>', 'text'),
     'i18n-name-content': ('<p i18n:translate="">' + A + '<b i18n:name="n" tal:replace="v">x</b>' + B + '</p>', 'text'),
     'pipe-content': ('<p tal:content="nothing.x | v">x</p>', 'text-whole'),
+    'i18n-name-attr': ('<p i18n:translate="">see <b i18n:name="n" a="' + A + '${v}' + B + '">t</b></p>', ('attr-b', 'a', '"')),
+    'two-names': ('<p i18n:translate="">' + A + '<b i18n:name="n" tal:omit-tag="">${v}</b>' + B + ' and <i i18n:name="m">${v}</i></p>', 'text'),
     # tal:content / tal:replace with i18n:translate="": the value is the message id; its translation is text
     'content-translated': ('<p tal:content="\'TRANSLATE-ME\' + str_of(v)" i18n:translate="">x</p>', 'text-whole-T'),
     'content-catalogue': ('<p tal:content="\'CATALOGUE-KEY\'" i18n:translate="">x</p>', 'text-whole'),
@@ -163,12 +165,15 @@ def str_form(v):
     return exprs.to_text(v)
 
 
-def render(src, v, mode='xml'):
+def render(src, v, mode='xml', tr='custom', cfg=None):
     from chameleon import PageTemplate, PageTextTemplate
     CATALOGUE['CATALOGUE-KEY'] = str_form(v)
     cls = PageTemplate if mode == 'xml' else PageTextTemplate
+    kw = dict(cfg or {})
+    if tr == 'custom':
+        kw['translate'] = translate
     try:
-        return cls(src, translate=translate)(v=v, h=exprs.Markup(str_form(v)), str_of=str_form)
+        return cls(src, **kw)(v=v, h=exprs.Markup(str_form(v)), str_of=str_form)
     except Exception as e:
         return 'RAISED %s: %s' % (type(e).__name__, str(e).split('\n')[0][:100])
 
@@ -188,8 +193,11 @@ def extract(out, region):
         m = re.search(r'<p>(.*)</p>', out, re.S)
         return [m.group(1)] if m else None
     kind, name, quote = region
+    want_tag = 'p'
+    if kind == 'attr-b':
+        kind, want_tag = 'attr', 'b'
     for tag, attrs, raw in reader.start_tags(out):
-        if tag != 'p':
+        if tag != want_tag:
             continue
         for n, q, val in attrs:
             if n == name:
@@ -219,17 +227,35 @@ def structure_of(out):
     return reader.structure(out)
 
 
-def check_site(ctx, site, wrapper, vname, v):
+# sites rendered a second time with the library's own translation function (no translate= given): the message is
+# assembled by chameleon.i18n.simple_translate from the mapping of the named parts; with the implicit options the
+# plain text and attribute sites go the same way
+DEFAULT_TR_SITES = ('in-translate', 'i18n-name', 'i18n-name-content', 'i18n-name-attr', 'two-names', 'text', 'dq-attr',
+                    'content', 'tal-attr-direct', 'string-content')
+IMPLICIT_CFG = {'implicit_i18n_translate': True, 'implicit_i18n_attributes': ['a']}
+
+
+def check_site(ctx, site, wrapper, vname, v, tr='custom', cfg=None):
     tpl, region = SITES[site]
     src = '<root>' + WRAPPERS[wrapper] % tpl + '</root>'
-    safe = render(src, 'SAFE')
-    out = render(src, v)
+    safe = render(src, 'SAFE', tr=tr, cfg=cfg)
+    out = render(src, v, tr=tr, cfg=cfg)
+    if tr != 'custom' or cfg:
+        ctx.mon('sites-checked-default-translation')
+        site_label = site + (':default-translation' if tr != 'custom' else '') + (':implicit' if cfg else '')
+        return _judge(ctx, site, site_label, wrapper, vname, v, src, safe, out, region,
+                      {'kind': 'site', 'site': site, 'wrapper': wrapper, 'value': vname, 'tr': tr, 'cfg': cfg})
     ctx.mon('sites-checked')
-    needs = bool(re.search(r'[&<>"\']', str_form(v)))
-    ctx.case(key=(site, wrapper, vname), nontrivial=needs,
-             sample={'source': src, 'value': repr(v), 'rendered': out} if vname == 'all' and wrapper == 'plain' and site in ('text', 'sq-attr') else None)
-    what = 'site %s in wrapper %s, value %r: template %r rendered %r' % (site, wrapper, v, src, out)
-    replay = {'kind': 'site', 'site': site, 'wrapper': wrapper, 'value': vname}
+    return _judge(ctx, site, site, wrapper, vname, v, src, safe, out, region,
+                  {'kind': 'site', 'site': site, 'wrapper': wrapper, 'value': vname})
+
+
+def _judge(ctx, site, label, wrapper, vname, v, src, safe, out, region, replay):
+    needs = bool(re.search(r'[&<>"\'$]', str_form(v)))
+    ctx.case(key=(label, wrapper, vname), nontrivial=needs,
+             sample={'source': src, 'value': repr(v), 'rendered': out} if vname == 'all' and wrapper == 'plain' and label in ('text', 'sq-attr') else None)
+    what = 'site %s in wrapper %s, value %r: template %r rendered %r' % (label, wrapper, v, src, out)
+    site = label
     if out.startswith('RAISED') or safe.startswith('RAISED'):
         ctx.violation('site-raised:' + site, what + ' (harmless rendering %r)' % safe, replay)
         return
@@ -247,7 +273,7 @@ def check_site(ctx, site, wrapper, vname, v):
     for raw in regs:
         probs = raw_problems(raw, quote if region != 'comment' else None)
         got_text = reader.unescape_literal(raw)
-        if site in ('in-translate', 'i18n-name', 'i18n-name-content'):
+        if site.split(':')[0] in ('in-translate', 'i18n-name', 'i18n-name-content', 'two-names') or ':implicit' in site:
             # the content of a translated element is whitespace-collapsed by definition (C10)
             got_text = re.sub(r'\s+', ' ', got_text).strip()
             want = re.sub(r'\s+', ' ', want).strip()
@@ -290,6 +316,20 @@ def run(ctx):
                 and isinstance(hv, Message):
             continue        # str_of() already stringifies
         check_site(ctx, s, w, hn, hv)
+    # the same sinks reached through the library's own translation function, explicit and implicit
+    k = 0
+    for s in DEFAULT_TR_SITES:
+        for w in ('plain', 'repeat', 'macro'):
+            for hn, hv in HOSTILE:
+                if isinstance(hv, Message):
+                    continue
+                for cfg in (None, IMPLICIT_CFG):
+                    k += 1
+                    if k % ctx.nshards != ctx.shard or (ctx.quick and w != 'plain' and rng.random() < .5):
+                        continue
+                    if cfg and s in ('in-translate', 'i18n-name', 'i18n-name-content', 'i18n-name-attr', 'two-names') and w != 'plain':
+                        continue
+                    check_site(ctx, s, w, hn, hv, tr='default', cfg=cfg)
     opt = [(n, hn, hv) for n in sorted(OPTOUTS) for hn, hv in HOSTILE]
     for i, (n, hn, hv) in enumerate(opt):
         if i % ctx.nshards != ctx.shard:
@@ -306,4 +346,5 @@ def replay(data):
         return True, 'template %r value %r -> %r' % (src, v, render(src, v, mode))
     tpl, region = SITES[data['site']]
     src = '<root>' + WRAPPERS[data['wrapper']] % tpl + '</root>'
-    return True, 'template %r value %r -> %r\nharmless -> %r' % (src, v, render(src, v), render(src, 'SAFE'))
+    tr, cfg = data.get('tr', 'custom'), data.get('cfg')
+    return True, 'template %r value %r -> %r\nharmless -> %r' % (src, v, render(src, v, tr=tr, cfg=cfg), render(src, 'SAFE', tr=tr, cfg=cfg))
